@@ -116,7 +116,7 @@ unsafe impl BufMut for Sink {
         self.space
     }
     unsafe fn advance_mut(&mut self, cnt: usize) {
-        assert!(cnt <= self.space, "c07: never advances past the space given");
+        kani::assert(cnt <= self.space, "c07: never advances past the space given");
         self.space -= cnt;
         self.overflow = true; // foca is expected to use put_* only
     }
@@ -124,7 +124,7 @@ unsafe impl BufMut for Sink {
         bytes::buf::UninitSlice::new(&mut self.scratch[..])
     }
     fn put_slice(&mut self, src: &[u8]) {
-        assert!(src.len() <= self.space, "c07: never writes more than the space given");
+        kani::assert(src.len() <= self.space, "c07: never writes more than the space given");
         let mut b = [0u8; 4];
         let mut i = 0;
         while i < 4 {
@@ -137,7 +137,7 @@ unsafe impl BufMut for Sink {
         self.space -= src.len();
     }
     fn put_u16(&mut self, v: u16) {
-        assert!(2 <= self.space, "c07: never writes more than the space given");
+        kani::assert(2 <= self.space, "c07: never writes more than the space given");
         self.log((true, v, 2, [0; 4]));
         self.space -= 2;
     }
@@ -159,8 +159,8 @@ fn fill_obligation(n: usize, prefixed: bool, lens: [usize; N]) {
     };
     let left = sink.space;
     let hdr = if prefixed { 2 } else { 0 };
-    assert!(!sink.overflow, "harness: write log large enough, only put_* used");
-    assert!(b.verif_flop_len() == 0, "c15: scratch heap is empty after fill");
+    kani::assert(!sink.overflow, "harness: write log large enough, only put_* used");
+    kani::assert(b.verif_flop_len() == 0, "c15: scratch heap is empty after fill");
 
     // the writes are a sequence of whole items
     let mut written = [false; N];
@@ -171,22 +171,22 @@ fn fill_obligation(n: usize, prefixed: bool, lens: [usize; N]) {
         if e < sink.n {
             let (is16, v, l, bytes) = sink.ev[e];
             if prefixed && e % 2 == 0 {
-                assert!(is16 && e + 1 < sink.n, "c16: every item starts with a 16-bit length followed by its bytes");
-                assert!(v as usize == sink.ev[e + 1].2 && v >= 1, "c16: the length prefix equals the item's length and is non-zero");
+                kani::assert(is16 && e + 1 < sink.n, "c16: every item starts with a 16-bit length followed by its bytes");
+                kani::assert(v as usize == sink.ev[e + 1].2 && v >= 1, "c16: the length prefix equals the item's length and is non-zero");
             } else {
-                assert!(!is16, "c07: item bytes are written as one whole slice");
+                kani::assert(!is16, "c07: item bytes are written as one whole slice");
                 let tag = bytes[0];
-                assert!(tag >= 0x10 && ((tag - 0x10) as usize) < n, "c15: only backlog entries are written");
+                kani::assert(tag >= 0x10 && ((tag - 0x10) as usize) < n, "c15: only backlog entries are written");
                 let i = (tag - 0x10) as usize;
-                assert!(l == pre.len[i], "c15: an entry is never written partially");
+                kani::assert(l == pre.len[i], "c15: an entry is never written partially");
                 let mut k = 1;
                 while k < 4 {
                     if k < l {
-                        assert!(bytes[k] == 0x9F + k as u8, "c15: entry bytes are verbatim");
+                        kani::assert(bytes[k] == 0x9F + k as u8, "c15: entry bytes are verbatim");
                     }
                     k += 1;
                 }
-                assert!(!written[i], "c15: an entry is written at most once per datagram");
+                kani::assert(!written[i], "c15: an entry is written at most once per datagram");
                 written[i] = true;
                 count += 1;
             }
@@ -194,9 +194,9 @@ fn fill_obligation(n: usize, prefixed: bool, lens: [usize; N]) {
         }
         e += 1;
     }
-    assert!(used + left == space, "c07: space accounting is exact");
-    assert!(taken == count, "c07: fill returns the number of items written");
-    assert!(count <= max_items, "c15: fill honours max_items");
+    kani::assert(used + left == space, "c07: space accounting is exact");
+    kani::assert(taken == count, "c07: fill returns the number of items written");
+    kani::assert(count <= max_items, "c15: fill honours max_items");
 
     // accounting per entry
     let mut i = 0;
@@ -205,15 +205,15 @@ fn fill_obligation(n: usize, prefixed: bool, lens: [usize; N]) {
             let now = find(&b, i);
             if written[i] {
                 if pre.tx[i] == 1 {
-                    assert!(now.is_none(), "c15: an entry leaves the backlog after exactly max_transmissions datagrams");
+                    kani::assert(now.is_none(), "c15: an entry leaves the backlog after exactly max_transmissions datagrams");
                 } else {
-                    assert!(now == Some(pre.tx[i] - 1), "c15: each transmission consumes exactly one from the budget");
+                    kani::assert(now == Some(pre.tx[i] - 1), "c15: each transmission consumes exactly one from the budget");
                 }
             } else {
-                assert!(now == Some(pre.tx[i]), "c15: an entry that was not transmitted keeps its budget");
+                kani::assert(now == Some(pre.tx[i]), "c15: an entry that was not transmitted keeps its budget");
                 // no-omit: an unwritten entry does not fit in what is left
                 if count < max_items {
-                    assert!(pre.len[i] + hdr > left, "c15: never omits a pending update that would still fit");
+                    kani::assert(pre.len[i] + hdr > left, "c15: never omits a pending update that would still fit");
                 }
             }
         }
@@ -227,7 +227,7 @@ fn fill_obligation(n: usize, prefixed: bool, lens: [usize; N]) {
         }
         j += 1;
     }
-    assert!(b.len() == expect_len, "c15: backlog holds exactly the entries with budget left");
+    kani::assert(b.len() == expect_len, "c15: backlog holds exactly the entries with budget left");
 
     // priority: a written entry never jumps over an unwritten one with more
     // transmissions left that would have fit in its place
@@ -236,7 +236,7 @@ fn fill_obligation(n: usize, prefixed: bool, lens: [usize; N]) {
         let mut y = 0;
         while y < N {
             if x < n && y < n && written[x] && !written[y] && pre.tx[y] > pre.tx[x] && count < max_items {
-                assert!(pre.len[y] + hdr > left + pre.len[x] + hdr, "c15: updates with more transmissions remaining take precedence");
+                kani::assert(pre.len[y] + hdr > left + pre.len[x] + hdr, "c15: updates with more transmissions remaining take precedence");
             }
             y += 1;
         }
@@ -275,17 +275,17 @@ fn bc_add_keyed() {
     let tx: [usize; 3] = [arb_tx(), arb_tx(), arb_tx()];
     let ln: [usize; 3] = [2, 3, 2];
     b.add_or_replace(A(k[0]), data(0x10, ln[0]), tx[0]);
-    assert!(b.len() == 1 && find(&b, 0) == Some(tx[0]), "c15: an accepted update enters the backlog with the full budget");
+    kani::assert(b.len() == 1 && find(&b, 0) == Some(tx[0]), "c15: an accepted update enters the backlog with the full budget");
     b.add_or_replace(A(k[1]), data(0x11, ln[1]), tx[1]);
     b.add_or_replace(A(k[2]), data(0x12, ln[2]), tx[2]);
     // newest always present with full budget
-    assert!(find(&b, 2) == Some(tx[2]), "c15: the most recently accepted update is in the backlog");
-    assert!(find(&b, 1).is_some() == (k[1] != k[2]), "c15: an update is superseded exactly by a fresher one for the same address");
-    assert!(find(&b, 0).is_some() == (k[0] != k[1] && k[0] != k[2]), "c15: an update is superseded exactly by a fresher one for the same address");
+    kani::assert(find(&b, 2) == Some(tx[2]), "c15: the most recently accepted update is in the backlog");
+    kani::assert(find(&b, 1).is_some() == (k[1] != k[2]), "c15: an update is superseded exactly by a fresher one for the same address");
+    kani::assert(find(&b, 0).is_some() == (k[0] != k[1] && k[0] != k[2]), "c15: an update is superseded exactly by a fresher one for the same address");
     let distinct = 1 + (k[1] != k[2]) as usize + (k[0] != k[1] && k[0] != k[2]) as usize;
-    assert!(b.len() == distinct, "c15: the backlog never holds more than one update per address");
+    kani::assert(b.len() == distinct, "c15: the backlog never holds more than one update per address");
     if let Some(t) = find(&b, 1) {
-        assert!(t == tx[1], "c15: untouched entries keep their budget");
+        kani::assert(t == tx[1], "c15: untouched entries keep their budget");
     }
     kani::cover!(distinct == 1, "all same address");
     kani::cover!(distinct == 3, "all distinct addresses");
@@ -305,10 +305,10 @@ fn bc_invalidate() {
     b.add_or_replace(R(k[2], rel), data(0x12, 1), tx[2]);
     let inv0 = rel[k[2] as usize][k[0] as usize];
     let inv1 = rel[k[2] as usize][k[1] as usize];
-    assert!(find(&b, 0).is_none() == inv0, "c16: an item invalidated by a newly accepted key leaves the backlog immediately, others stay");
-    assert!(find(&b, 1).is_none() == inv1, "c16: an item invalidated by a newly accepted key leaves the backlog immediately, others stay");
-    assert!(find(&b, 2) == Some(tx[2]), "c16: the accepted item is queued with the full budget");
-    assert!(b.len() == 1 + !inv0 as usize + !inv1 as usize, "c16: backlog = survivors + new item");
+    kani::assert(find(&b, 0).is_none() == inv0, "c16: an item invalidated by a newly accepted key leaves the backlog immediately, others stay");
+    kani::assert(find(&b, 1).is_none() == inv1, "c16: an item invalidated by a newly accepted key leaves the backlog immediately, others stay");
+    kani::assert(find(&b, 2) == Some(tx[2]), "c16: the accepted item is queued with the full budget");
+    kani::assert(b.len() == 1 + !inv0 as usize + !inv1 as usize, "c16: backlog = survivors + new item");
     // and it is never transmitted again
     let mut sink = Sink::new(32);
     let _ = b.fill_with_len_prefix(&mut sink, usize::MAX);
@@ -316,7 +316,7 @@ fn bc_invalidate() {
     while g < 8 {
         if g < sink.n && !sink.ev[g].0 {
             let tag = sink.ev[g].3[0];
-            assert!(!(tag == 0x10 && inv0) && !(tag == 0x11 && inv1), "c16: an invalidated item is never transmitted again");
+            kani::assert(!(tag == 0x10 && inv0) && !(tag == 0x11 && inv1), "c16: an invalidated item is never transmitted again");
         }
         g += 1;
     }
@@ -333,12 +333,12 @@ fn bc_budget_two_rounds() {
     let n1 = b.fill(&mut s1, usize::MAX);
     let mut s2 = Sink::new(8);
     let n2 = b.fill(&mut s2, usize::MAX);
-    assert!(n1 == 1, "c15: a pending update that fits is piggybacked");
+    kani::assert(n1 == 1, "c15: a pending update that fits is piggybacked");
     if pre.tx[0] == 1 {
-        assert!(n2 == 0 && b.len() == 0, "c15: piggybacked at most max_transmissions times");
+        kani::assert(n2 == 0 && b.len() == 0, "c15: piggybacked at most max_transmissions times");
     } else {
-        assert!(n2 == 1, "c15: piggybacked until the budget is used up");
-        assert!(find(&b, 0).is_none() == (pre.tx[0] == 2), "c15: leaves the backlog after exactly max_transmissions datagrams");
+        kani::assert(n2 == 1, "c15: piggybacked until the budget is used up");
+        kani::assert(find(&b, 0).is_none() == (pre.tx[0] == 2), "c15: leaves the backlog after exactly max_transmissions datagrams");
     }
     kani::cover!(pre.tx[0] == 2, "budget two");
 }
@@ -356,9 +356,9 @@ fn bc_fill_real_buffer() {
     let taken = b.fill(&mut lim, usize::MAX);
     let out = lim.into_inner();
     if space >= 3 {
-        assert!(taken == 1 && out.len() == 3 && out[0] == 0x10 && out[1] == 0xA0 && out[2] == 0xA1, "c15: the update is written verbatim");
+        kani::assert(taken == 1 && out.len() == 3 && out[0] == 0x10 && out[1] == 0xA0 && out[2] == 0xA1, "c15: the update is written verbatim");
     } else {
-        assert!(taken == 0 && out.is_empty() && find(&b, 0) == Some(pre.tx[0]), "c15: an update that does not fit is not written, not even partially");
+        kani::assert(taken == 0 && out.is_empty() && find(&b, 0) == Some(pre.tx[0]), "c15: an update that does not fit is not written, not even partially");
     }
     kani::cover!(space == 3, "exact fit");
 }
